@@ -158,6 +158,10 @@ func init() {
 		fr.i.waitAll()
 		return nil
 	}
+	symAPI["Preemptions"] = func(fr *frame, args []value) value {
+		fr.i.run.maxPreempt = int(asInt64(args[0]))
+		return nil
+	}
 	symAPI["Stamp"] = func(fr *frame, args []value) value {
 		fr.i.run.stamp++
 		return fr.i.run.stamp
